@@ -170,7 +170,7 @@ pub struct Alt {
 
 impl Ctx {
     pub fn session(&self, cpus: usize, faults: Vec<Fault>, ops: Vec<Op>) -> Session {
-        Session { cpus, faults, ops, expected_docs: self.expected_docs, repo: self.repo.clone(), alt: false }
+        Session { cpus, faults, ops, expected_docs: self.expected_docs, repo: self.repo.clone(), alt: false, rand: 0 }
     }
     /// the data and reference against which step `i` of a trace is judged
     pub fn side(&self, alt: bool) -> (&Shipped, &Reference) {
@@ -198,6 +198,24 @@ pub fn inline_files(h: &mut History) {
                         }
                     }
                 }
+            }
+        }
+    }
+}
+
+/// The randomness seed of step `i` when the step does not carry one of its own.
+pub fn step_rand(h: &History, i: usize) -> u64 {
+    crate::rng::derive(h.seed, "step-rand", i as u64) | 1
+}
+
+/// Write the derived randomness seeds into the sessions, so that dropping or reordering steps (as
+/// the minimiser does) no longer changes what each remaining process start draws.
+pub fn freeze_rand(h: &mut History) {
+    for i in 0..h.steps.len() {
+        let r = step_rand(h, i);
+        if let Step::Start { session } = &mut h.steps[i] {
+            if session.rand == 0 {
+                session.rand = r;
             }
         }
     }
@@ -271,6 +289,9 @@ pub fn run_history(ctx: &Ctx, h: &History, work: &Path, rotate: usize) -> Trace 
                 if s.repo.is_empty() {
                     s.repo = ctx.repo.clone();
                 }
+                if s.rand == 0 {
+                    s.rand = step_rand(h, i);
+                }
                 let mut out = launcher.simnode(&xdg, work, &format!("s{i}"), &s, rotate);
                 if let Some(e) = out.harness_error() {
                     trace.harness_errors.push(format!("step {i}: {e}"));
@@ -300,7 +321,7 @@ pub fn run_history(ctx: &Ctx, h: &History, work: &Path, rotate: usize) -> Trace 
                 } else {
                     args.push(query.clone());
                 }
-                let out = ctx.launcher.any(&xdg, work, &args, env, inject.as_ref());
+                let out = ctx.launcher.any(&xdg, work, &args, env, inject.as_ref(), step_rand(h, i));
                 if let Some(e) = out.harness_error() {
                     trace.harness_errors.push(format!("step {i}: {e}"));
                 }
